@@ -393,8 +393,9 @@ func (f *FieldCopyToGenerator) genListOrMap() *j.Statement {
 // genCustom generates statement representing custom type
 func (f *FieldCopyToGenerator) genCustom() *j.Statement {
 	return f.nextField("t", func(g *j.Group) {
+		fieldName := f.genEmbeddedSource(g)
 		g.Id("v").Op(":=").Id("CopyTo"+f.Suffix).Params(
-			j.Id("diags"), j.Id("obj."+f.Name), j.Id("t"), j.Id("tf.Attrs").Index(j.Lit(f.NameSnake)),
+			j.Id("diags"), j.Id(fieldName), j.Id("t"), j.Id("tf.Attrs").Index(j.Lit(f.NameSnake)),
 		)
 		g.Id("tf.Attrs").Index(j.Lit(f.NameSnake)).Op("=").Id("v")
 	})
